@@ -28,6 +28,9 @@ ASSUMPTIONS = ["astropy WCS all_pix2world/all_world2pix semantics",
                "contracts table (aegean_sa/units.py)"]
 
 MUTANTS = [
+    ("sky2pix without the distortion terms", "AegeanTools/wcs_helpers.py",
+     "        pixel = self.wcs.all_world2pix(",
+     "        pixel = self.wcs.wcs_world2pix(", "C16-R10"),
     ("pix2sky answers memoised in a mutable default argument",
      "AegeanTools/wcs_helpers.py",
      "    def pix2sky(self, pixel):\n",
@@ -153,6 +156,7 @@ def run(ctx):
     r7_defect(ctx, prog, ci)
     r8_quadrant(ctx, prog)
     r9_stateless(ctx, prog)
+    r10_same_transformation(ctx, prog, ci)
     from .. import precision
     precision.rule(
         ctx, prog, "C16-R6",
@@ -364,3 +368,35 @@ def r9_stateless(ctx, prog):
                   "another image" % "; ".join(d for _, d in st[:3]),
                   node=st[0][0] if st else fi.node)
     ctx.floor("C16-R9", n, 20, "functions of the conversion modules")
+
+
+def r10_same_transformation(ctx, prog, ci):
+    ctx.rule("C16-R10", "pixel -> sky and sky -> pixel are the SAME "
+             "transformation: on each WCS object the forward and the inverse "
+             "call belong to one astropy family -- all_pix2world with "
+             "all_world2pix (core + distortions) or wcs_pix2world with "
+             "wcs_world2pix (core only); mixing them is an inverse pair only "
+             "for headers without SIP / look-up distortions")
+    fam = {}
+    for m, fi in ci.methods.items():
+        for c in walk_no_nested(fi.node):
+            if isinstance(c, ast.Call) and isinstance(c.func, ast.Attribute) \
+                    and c.func.attr.endswith(("pix2world", "world2pix")) \
+                    and "_" in c.func.attr:
+                obj = norm(c.func.value)
+                pre, op = c.func.attr.split("_", 1)
+                fam.setdefault(obj, []).append((pre, op, fi, c))
+    n = 0
+    main = fam.get("self.wcs", [])
+    ctx.floor("C16-R10", len(main), 2, "astropy transformations on self.wcs")
+    allsites = [x for v in fam.values() for x in v]
+    pres = sorted({x[0] for x in allsites})
+    for pre, op, fi, c in allsites:
+        n += 1
+        ctx.check("C16-R10", fi, "family of " + norm(c.func), len(pres) == 1,
+                  "WCSHelper mixes the astropy families %s: %s here, while "
+                  "%s elsewhere -- for an image with distortion terms "
+                  "pix2sky and sky2pix are no longer inverse of each other" %
+                  (pres, c.func.attr, sorted({"%s_%s" % (a, b) for a, b, _, _
+                                              in allsites} - {c.func.attr})),
+                  node=c)
